@@ -41,6 +41,7 @@ theorem typeOf_of_hasType : ∀ (e : IExpr) (τ : ETy), HasType Γ e τ → type
     | indexV ha _ hl => simp [typeOf, typeOf_of_hasType a _ ha, hl]
     | indexM ha _ hl => simp [typeOf, typeOf_of_hasType a _ ha, hl]
     | indexA ha _ hl ho => simp [typeOf, typeOf_of_hasType a _ ha, hl, ho]
+    | indexR ha _ hl ho hr => simp [typeOf, typeOf_of_hasType a _ ha, hl, ho, hr]
   | .member e sid idx, _, h => by
     cases h with
     | member he _ ho hm => simp [typeOf, typeOf_of_hasType e _ he, ho, hm]
